@@ -12,20 +12,27 @@ import (
 	"path/filepath"
 
 	"ariga.io/atlas/sql/migrate"
-	"github.com/spf13/cobra"
 	_ "github.com/mattn/go-sqlite3"
+	"github.com/spf13/cobra"
 )
 
 type verifShape struct {
 	nf, ns             int
 	directive          []string
 	failFile, failStmt int
+	ckpt               int // 1-based index of the file tagged as checkpoint, 0 = none
 }
 
 func (sh verifShape) fileContent(i int) string {
 	content := ""
+	if sh.ckpt == i+1 {
+		content = "-- atlas:checkpoint\n"
+	}
 	if sh.directive[i] != "" {
-		content = "-- atlas:txmode " + sh.directive[i] + "\n\n"
+		content += "-- atlas:txmode " + sh.directive[i] + "\n"
+	}
+	if content != "" {
+		content += "\n"
 	}
 	for j := 0; j < sh.ns; j++ {
 		id := fmt.Sprintf("S%d_%d", i, j)
